@@ -469,7 +469,7 @@ def main():
     meta = corr['meta']
     wall = time.time() - t0
     ev = {
-        'property_id': pid, 'tier': tier, 'seed': seed, 'level': spec.get('level', 'proof'),
+        'property_id': pid, 'tier': tier, 'seed': seed, 'level': (spec.get('level') if spec.get('level') in ('exploration', 'fault_enumeration', 'model_checking', 'proof', 'translation_validation', 'other') else 'proof'),
         'coverage': {
             'obligations': obligations, 'discharged': discharged,
             'checker_cmd': 'cd coq && coq_makefile -f _CoqProject -o Makefile && make -j16 ' + ' '.join(spec['proof_targets'] + ['Props/%s.vo' % pid]),
